@@ -37,6 +37,13 @@ Definition obind {A B : Type} (o : option A) (f : A -> option B) : option B :=
 Notation "'dobind' x <- e ;; r" := (obind e (fun x => r))
   (at level 200, x pattern, e at level 100, r at level 200, right associativity).
 
+Fixpoint all_some (l : list (option R)) : option (list R) :=
+  match l with
+  | [] => Some []
+  | Some x :: t => match all_some t with Some r => Some (x :: r) | None => None end
+  | None :: _ => None
+  end.
+
 (* ---- static helpers ---- *)
 Definition Rmin3 (a b c : R) := Rmin a (Rmin b c).
 Definition Rmax3 (a b c : R) := Rmax a (Rmax b c).
